@@ -62,6 +62,10 @@ step_exec(const char *step_name, struct config *config, struct arena *scratch,
 		warnx("%s: step script not found", step_name);
 		return 1;
 	}
+	if (command[0] == NULL) {
+		warnx("%s: empty step command", step_name);
+		return 1;
+	}
 
 	error = step_fork(&c, command, &pid);
 	if (error)
